@@ -10,7 +10,7 @@ MCProps == {<<"s1", "fixed", "o4">>, <<"s2", "fixed", "o4">>, <<"s1", "fixed", "
 MCPropsSmall == {<<"s1", "fixed", "o4">>, <<"s2", "fixed", "o4">>}
 
 \* hist is bookkeeping only; states are identified by everything else
-NoHistView == <<L, I, dyn, cor, saved, last>>
+NoHistView == <<L, I, dyn, cor, saved, left, alias, last>>
 
 \* every transition TLC generates (also those leading to an already known state) prints the
 \* history that ends with it: transition coverage of the abstract state graph, each transition
@@ -20,6 +20,17 @@ EmitTransition == PrintT(ToJson(hist'))
 \* one history per distinct state (the VIEW contains the last operation and its outcome, so this
 \* is one shortest history per distinct (state, last operation, outcome))
 EmitState == (Len(hist) <= MaxLen) => PrintT(ToJson(hist))
+
+\* Deep exploration behind a fixed prefix that leaves the object re-loaded from disk with a
+\* trajectory and stability information restored (the states short histories cannot reach):
+\* only histories extending the prefix are explored, MaxLen further operations.
+DeepPrefix == << <<"Correct", <<"default">>>>, <<"Propagate", <<"s1", "fixed", "o4">>>>,
+                 <<"ReadStability", <<>>>>, <<"Save", <<>>>>, <<"Load", <<>>>> >>
+MinLen(a, b) == IF a < b THEN a ELSE b
+OnPrefix == \A i \in 1 .. MinLen(Len(hist), Len(DeepPrefix)) :
+                hist[i].op = DeepPrefix[i][1] /\ hist[i].arg = DeepPrefix[i][2]
+HistBoundDeep == OnPrefix /\ Len(hist) <= Len(DeepPrefix) + MaxLen
+EmitStateDeep == (HistBoundDeep /\ Len(hist) >= Len(DeepPrefix)) => PrintT(ToJson(hist))
 
 \* -simulate: print the walk when it reaches the length bound
 EmitWalk == (Len(hist) = MaxLen) => PrintT(ToJson(hist))
